@@ -83,7 +83,11 @@ def linear(g, rd, f, idx, ctx, depth=0):
                 # several definitions, or defined through an out-parameter: the variable itself is the symbol
                 return {'local:%s:%s' % (n.get('id'), n['name']): 1}
             dp, vx = vals[0]
-            return linear(g, rd, dp.f, vx, dp.ctx, depth + 1)
+            sub = linear(g, rd, dp.f, vx, dp.ctx, depth + 1)
+            if sub is None:
+                # initialised once from something that is not linear (std::min(...), a call): the variable itself is the symbol
+                return {'local:%s:%s' % (n.get('id'), n['name']): 1}
+            return sub
         if 'v' in n:
             return {'1': n['v']} if n['v'] else {}
         return None
